@@ -832,7 +832,7 @@ def run(ctx):
     ctx.rule = ('(a) one forward per (temperature of {0.05..20}) x (hard, gumbel, disable_sampling, train/eval) on per-layer vectors (length 1..8), per-channel matrices (up to 8x16) and '
                 'SuperNet combiners (length 1..8, inside a real SuperNet) with pairwise coefficient gaps >= 0.05; (b) breadth-first closure of the abstract state '
                 '(sampler fn, hard, training, temperature, coefficients, content of theta) under the whole op alphabet (update_softmax_options with every None/True/False combination '
-                'of hard, gumbel, disable_sampling and temperature None/new, train, eval, forward, optimizer step); (c) random sequences of 6..13 ops (also ending without a forward) and forward -> alpha := new alpha with the arg-max moved -> summary()/export() with no forward in between; (c2) forward(s) -> alpha := new alpha (arg-max moved, by copy_ / .data = / load_state_dict) -> forward, all in one autograd mode (grad / torch.no_grad() / torch.inference_mode()) with no mode or option call in between; forwards of (b),(c) run with and without autograd, alpha updates use the three routes; (d2) whole MPS models (Conv1d/Conv2d, residual add, Linear, input quantizer) whose options are changed only through MPS.update_softmax_options and the layer-level update_softmax_options of every layer type: on -> off -> forward, all-falsy off-only calls, each option False alone, on/off through different paths, random mixes; one model trace per selector, SUpdate applied to exactly the selectors a call reaches; (d) whole MPS models: summary()/export() after a forward and again after replacing every alpha (arg-max moved) without a forward, '
+                'of hard, gumbel, disable_sampling and temperature None/new, train, eval, forward, optimizer step); (c) random sequences of 6..13 ops (also ending without a forward) and forward -> alpha := new alpha with the arg-max moved -> summary()/export() with no forward in between; (c2) forward(s) -> alpha := new alpha (arg-max moved, by copy_ / .data = / load_state_dict) -> forward, all in one autograd mode (grad / torch.no_grad() / torch.inference_mode()) with no mode or option call in between; forwards of (b),(c) run with and without autograd, alpha updates use the three routes; (d2) whole MPS models (Conv1d/Conv2d, residual add, Linear, input quantizer) whose options are changed only through MPS.update_softmax_options and the layer-level update_softmax_options of every layer type: on -> off -> forward, all-falsy off-only calls, each option False alone, on/off through different paths, random mixes; one model trace per selector, SUpdate applied to exactly the selectors a call reaches; (d3) checkpoint round trips: searched model -> torch.save(state_dict()) -> NEW wrapper with sampling disabled -> load_state_dict -> eval forward (coefficients, outputs, summary(), export() of the re-loaded model against the saved one); (d) whole MPS models: summary()/export() after a forward and again after replacing every alpha (arg-max moved) without a forward, '
                 'against argmax(alpha) and the evaluated one-hot.  non-trivial = at least one forward pass with more than one alternative; distinct = distinct (object kind, initial state, op sequence)')
     from concurrent.futures import ProcessPoolExecutor
     import multiprocessing as mp
@@ -854,6 +854,7 @@ def run(ctx):
         mres = list(pool.map(exec_model, specs_models(ctx, 32 if ctx.quick else 160), chunksize=2))
         from . import c10_net
         nres = list(pool.map(c10_net.exec_net, c10_net.specs_net(ctx, keep), chunksize=2))
+        nres += list(pool.map(c10_net.exec_ckpt, c10_net.specs_ckpt(ctx), chunksize=2))
     ctx.extra['t_impl_s'] = round(time.time() - ctx.t0, 1)
     ctx.exhaustive = all(c['closed'] for c in closure.values())
     ctx.extra['exhaustive_part'] = 'the closure of the abstract sampler state space (b) when closed=true for every kind; vectors, temperatures and noise are sampled'
@@ -875,7 +876,7 @@ def run(ctx):
         for key, what, where in r['fails']:
             fails.append((key, what, {'family': 'model', 'spec': r['spec'], 'where': where}))
     for r in nres:
-        ctx.case(('net', r['spec']), nontrivial=True, kind='net:%dd%s' % (r['spec']['dim'], ':residual' if r['spec']['residual'] else ''))
+        ctx.case(('net', r['spec']), nontrivial=True, kind='%s:%dd%s' % (r['spec'].get('fam', 'net'), r['spec']['dim'], ':residual' if r['spec']['residual'] else ''))
         for o in r['spec']['ops']:
             ctx.dist['netop:' + o[0]] += 1
         for key, what, step in r['fails']:
@@ -986,7 +987,7 @@ def replay(r):
     if r.get('family') == 'net':
         from . import c10_net
         sp = dict(sp, ctor=tuple(sp['ctor']), ops=[tuple(o) for o in sp['ops']])
-        res = c10_net.exec_net(sp)
+        res = c10_net.exec_ckpt(sp) if sp.get('fam') == 'ckpt' else c10_net.exec_net(sp)
         for n_, rec in res['sel'].items():
             if rec['steps']:
                 print(' selector %s: sampler=%s hard=%s training=%s -> theta_alpha=%s (alpha=%s)' % (n_, rec['steps'][-1]['name'], rec['steps'][-1]['hard'], rec['steps'][-1]['training'],
